@@ -8,7 +8,7 @@ use crate::primitives::{AccountInfo, HashMap, U256};
 fn check_from_bundle(ex: bool, p: Pat) {
     let status = any_status_ex(ex);
     let info = if ex { Some(any_info()) } else { None };
-    let original_info = if kani::any() { Some(any_info()) } else { None };
+    let original_info = Some(any_info()); // not read by the conversion
     let (storage, sh) = slot_storage(p);
     let b = BundleAccount { info: info.clone(), original_info, storage, status };
     let c = CacheAccount::from(b);
@@ -37,8 +37,6 @@ macro_rules! harness {
         }
     };
 }
-harness!(from_bundle_s_00, 6, true, P00);
-harness!(from_bundle_n_00, 6, false, P00);
-harness!(from_bundle_s_10, 6, true, P10);
-harness!(from_bundle_n_10, 6, false, P10);
-harness!(from_bundle_s_11, 6, true, P11);
+harness!(from_bundle_s_00, 34, true, P00);
+harness!(from_bundle_n_00, 34, false, P00);
+harness!(from_bundle_s_10, 34, true, P10);
